@@ -1,7 +1,7 @@
 (* FactsOK_C06.v — the facts regenerated from the CURRENT sources equal what the HEAP model of C06
    assumes: the class of every MergeClause body, the slices Statement.clone copies / shares, the
    statement-owned slices chain methods append onto. *)
-From Verif Require Import Base C06_Model.
+From Verif Require Import Base C06_Model C06_Ext.
 From Gen Require Import Facts.
 
 (* the four slice-carrying MergeClause bodies (probed on the running gorm: merged onto a stored slice with
@@ -22,6 +22,25 @@ Proof. vm_compute. repeat split; reflexivity. Qed.
 
 (* Session options from a Session-style parent: own statement exactly for Context and SkipHooks *)
 Lemma session_clones_ok : session_clones = tree_session_clones.
+Proof. vm_compute. reflexivity. Qed.
+
+(* ... which is the guard the non-slice model (C06_Ext) runs with: [tree_guard] on the probed options *)
+Definition opt_args : list (string * (bool * option Z * bool)) :=
+  [("ctx"%string, (false, Some 0%Z, false)); ("newdb"%string, (true, None, false)); ("newdb+ctx"%string, (true, Some 0%Z, false));
+   ("newdb+ctx+skiphooks"%string, (true, Some 0%Z, true)); ("newdb+skiphooks"%string, (true, None, true));
+   ("skiphooks"%string, (false, None, true))].
+Fixpoint opt_lookup (l : list (string * (bool * option Z * bool))) (n : string) : bool * option Z * bool :=
+  match l with
+  | [] => (false, None, false)        (* options that do not touch the statement *)
+  | (k, v) :: r => if String.eqb k n then v else opt_lookup r n
+  end.
+Definition opt_guard (n : string) : bool :=
+  let '(nd, ctx, skip) := opt_lookup opt_args n in tree_guard nd ctx skip false.
+Lemma session_guard_ok : forallb (fun x : string * bool => Bool.eqb (snd x) (opt_guard (fst x))) session_clones = true.
+Proof. vm_compute. reflexivity. Qed.
+
+(* Statement.clone gives the new statement a Preloads map of its own (the model's share_pre = false) *)
+Lemma preloads_fresh_ok : existsb (String.eqb "Preloads") clone_fresh_maps = true.
 Proof. vm_compute. reflexivity. Qed.
 
 (* chain methods (incl. one level of unexported helper methods) append in place only onto statement
